@@ -16,7 +16,7 @@ LEVEL = 'exploration'
 BUDGET = {'quick': 5000, 'thorough': 10000}
 RULE = ('Hypothesis-generated histories: 1-4 coroutine scripts whose steps are (actions, outcome) with actions in '
         '{start j, kill j (also itself), query state j} and outcome in {yield None/0/negative, yield positive '
-        'multiple of 1/8, return v}; external operations start i / kill i (processor or promise) / state i / '
+        'multiple of 1/8, return v, raise}; external operations start i / kill i (processor or promise) / state i / '
         'process dt / the three calls on non-generators / forget i (harness drops its strong references, keeps '
         'weakrefs). Oracle: reference model per generator (TERMINATED | ACTIVE | PAUSED(remaining), script '
         'position, expected promise value) stepped alongside; the execution log is validated entry by entry, '
@@ -28,7 +28,9 @@ ASSUMPTIONS = [
     'a generator (re)started from inside a frame, not yet run in that frame, may get a step in that frame or '
     'only in the next one',
     'generators that already returned are not started again (counted exclusion)',
-    'bodies never raise; CPython reference counting for the release clause',
+    'a body may raise once (user code failing): the frame is abandoned, and after that only "the finished '
+    'generator is released within two frames, kill of it raises ValueError, later frames do not fail" is judged; '
+    'CPython reference counting for the release clause',
     'dt and waits are multiples of 1/8 (exact in binary floating point)',
 ]
 FINDINGS = {}
@@ -45,9 +47,10 @@ def decode_step(p):
     for _ in range(nact):
         acts.append([('start', 'kill', 'kill', 'state')[p % 4], p // 4 % 4])
         p //= 16
-    o = p % 10
-    p //= 10
-    out = ['r', p % 3] if o == 9 else ['y', YIELDS[o % len(YIELDS)]]
+    o = p % 11
+    p //= 11
+    # 'x': the body raises (user code failing) - the history ends with a short tail, see Run.after_body_raised
+    out = ['r', p % 3] if o == 9 else (['x'] if (o == 10 and p % 3 == 0) else ['y', YIELDS[o % len(YIELDS)]])
     return {'acts': acts, 'out': out}
 
 
@@ -63,7 +66,7 @@ def decode_op(t):
 
 
 def strategy():
-    step = st.integers(0, 6 * 256 * 10 * 3 - 1).map(decode_step)
+    step = st.integers(0, 6 * 256 * 11 * 3 - 1).map(decode_step)
     op = st.tuples(st.integers(0, 14), st.integers(0, 15)).map(decode_op)
     return st.fixed_dictionaries({
         'scripts': st.lists(st.lists(step, min_size=1, max_size=5), min_size=1, max_size=4),
@@ -72,7 +75,18 @@ def strategy():
         'sync': st.booleans()})
 
 
+class BodyFailed(Exception):
+    """raised by a coroutine body of the program under test"""
+
+
+class EndOfCase(Exception):
+    pass
+
+
 class Run:
+    tail = False
+    raised_in = None
+
     def __init__(self, case):
         self.case = case
         self.n = len(case['scripts'])
@@ -116,6 +130,13 @@ class Run:
             self.on_step(i, s)
             for act in step['acts']:
                 self.do(act[0], act[1] % self.n, inside=i)
+            if step['out'][0] == 'x' and not self.tail:
+                self.raised_in = i
+                self.user_error = BodyFailed(i)
+                self.flags['body_raised'] += 1
+                raise self.user_error
+            if step['out'][0] == 'x':
+                return None
             if step['out'][0] == 'r':
                 # returned objects: a unique tuple, the falsy int 0, a fresh empty list (identity is checked)
                 val = [('ret', i, s), 0, []][step['out'][1] % 3]
@@ -128,6 +149,8 @@ class Run:
         return None
 
     def on_step(self, i, s):
+        if self.tail:
+            return
         if not self.in_frame:
             self.viol('coroutine_body_ran_outside_process', coroutine=i)
         if i in self.ran:
@@ -144,6 +167,8 @@ class Run:
         self.current = i
 
     def on_yield(self, i, y):
+        if self.tail:
+            return
         if self.state[i] == T:          # killed itself during this step
             if y is not None and y > 0:
                 self.ghost[i] = {'remaining': Fraction(y), 'frames': None}
@@ -156,6 +181,8 @@ class Run:
         self.current = None
 
     def on_return(self, i, val):
+        if self.tail:
+            return
         self.state[i] = T
         self.finished[i] = True
         self.retval[i] = val
@@ -166,6 +193,16 @@ class Run:
     # ---- operations (from outside: inside=None; from a body: inside=i) ---------------------------------
     def do(self, kind, j, inside=None):
         where = 'inside' if inside is not None else 'outside'
+        if self.tail:
+            g = self.gens[j]
+            try:
+                # (the generator whose body raised is finished: finished generators are never started again)
+                if g is not None and kind != 'state' and not (kind == 'start' and (j == self.raised_in
+                                                                                   or self.finished[j])):
+                    (self.proc.start if kind == 'start' else self.proc.kill)(g)
+            except (ValueError, TypeError):
+                pass
+            return
         if kind == 'state':
             self.check_state(j, where)
             return
@@ -251,7 +288,7 @@ class Run:
 
     def check_state(self, j, where):
         g = self.gens[j]
-        if g is None:
+        if g is None or self.tail:
             return
         try:
             got = self.proc.state(g)
@@ -292,9 +329,18 @@ class Run:
         except PropertyViolation:
             raise
         except Exception as exc:
-            self.viol('process_raised', exception=repr(exc))
+            if exc is not getattr(self, 'user_error', None):
+                self.viol('process_raised', exception=repr(exc))
+            body_failed = True
+        else:
+            body_failed = False
         finally:
             self.in_frame = False
+        if body_failed:
+            # (outside the except clause: the exception and its traceback - which refer to the generator's frame -
+            # are gone by now)
+            self.user_error = None
+            return self.after_body_raised()
         for i in self.due:
             if i not in self.ran and i not in self.killed_in_frame:
                 self.viol('active_coroutine_not_advanced_in_frame', coroutine=i)
@@ -321,6 +367,49 @@ class Run:
                 self.check_released(i)
         for i in range(self.n):
             self.check_state(i, 'after process')
+
+    def after_body_raised(self):
+        """A body raised and the frame was abandoned.  The generator is finished (it can never run again): it must be
+        released no later than the frame in which it would next have run, and the bookkeeping must not make the
+        following frames fail.  Nothing else is judged after this point."""
+        self.tail = True
+        i = self.raised_in
+        for k in range(2):
+            self.in_frame = True
+            try:
+                self.proc.process(0)
+            except Exception as exc:
+                self.viol('process_fails_after_a_body_raised', frames_later=k + 1, exception=repr(exc))
+            finally:
+                self.in_frame = False
+        g = self.gens[i]
+        if g is not None:
+            try:
+                st_ = self.proc.state(g)
+            except Exception as exc:
+                self.viol('state_raised', exception=repr(exc))
+            if st_ != T:
+                self.viol('finished_coroutine_still_booked_as_running', coroutine=i, state=getattr(st_, 'name', st_),
+                          note='its body raised two frames ago')
+            try:
+                self.proc.kill(g)
+            except ValueError:
+                pass
+            except Exception as exc:
+                self.viol('kill_of_terminated_generator_raised_other_than_ValueError', exception=repr(exc))
+            else:
+                self.viol('kill_of_terminated_generator_did_not_raise_ValueError', coroutine=i, where='tail')
+        g = None
+        self.gens[i] = None
+        self.promises[i] = None
+        self.user_error = None
+        if self.wgens[i]() is not None:
+            gc.collect()
+        if self.wgens[i]() is not None:
+            self.viol('finished_or_killed_generator_not_released', coroutine=i, finished=True,
+                      referrers=[type(r).__name__ for r in gc.get_referrers(self.wgens[i]())][:5])
+        self.flags['tail_after_a_body_raised'] += 1
+        raise EndOfCase()
 
     def check_released(self, i):
         if self.wgens[i]() is not None:
@@ -391,6 +480,8 @@ def run_case(case):
     run = Run(case)
     try:
         run.run()
+    except EndOfCase:
+        pass
     finally:
         for g in run.gens:
             if g is not None:
